@@ -178,3 +178,64 @@ func PeerCapable(kind, rule string) bool {
 	}
 	return false
 }
+
+// HasFlagField: reply types whose QueryMeta.ResultsFilteredByACLs the filter is responsible for.
+func HasFlagField(kind string) bool {
+	if IsAclKind(kind) {
+		return false
+	}
+	switch kind {
+	case "DirEntries", "TxnResults", "CheckServiceNodes", "IntentionQueryMatch", "PreparedQueryOne":
+		return false
+	}
+	return true
+}
+
+// MakeReadable rewrites the intended facts of a case so that the token may read everything in it (the content a
+// blocking query sees on its wake-up evaluation once the unreadable entries are gone).
+func MakeReadable(c *Case) {
+	fix := func(e *El) {
+		if e.N == "no" {
+			e.N = "ok"
+		}
+		if e.S == "no" {
+			e.S = "ok"
+		}
+		if e.G == "no" {
+			e.G = "ok"
+		}
+		if e.X == "no" || e.X == "unnamed" {
+			e.X = "ok"
+		}
+		e.P = "na"
+	}
+	for _, g := range c.Groups {
+		if g.Hd == "no" {
+			g.Hd = "ok"
+		}
+		for _, e := range g.Items {
+			fix(e)
+			for _, sub := range e.Subs {
+				for _, lf := range sub {
+					fix(lf)
+				}
+			}
+		}
+	}
+}
+
+// RandPrior draws the flag's value on entry and, for half of the "yes" draws, makes the content fully readable
+// (re-evaluation that removes nothing on a reply that said "filtered" before).
+func RandPrior(r *rand.Rand, c *Case) {
+	c.Prior = "no"
+	if !HasFlagField(c.Kind) {
+		c.Prior = "na"
+		return
+	}
+	if r.Intn(5) < 2 {
+		c.Prior = "yes"
+		if r.Intn(2) == 0 {
+			MakeReadable(c)
+		}
+	}
+}
